@@ -424,7 +424,7 @@ def run(ck):
         'C15: the graph handed to the model is what Task.dependencies() of the real objects yields; redis is the in-process '
         'fake; the parsers of the printed status table and of the sqlite cache file; sqlite3 itself',
     ]
-    ck.assumptions = ['wf_dag for the cached theorem (checked on every observed graph by wf_dagb inside coqc)',
+    ck.assumptions = ['cached = uncached needs ordered_dag (every dependency created before its consumer); for the other well-formed graphs the model says, and the tie confirms, that the cached command exits 1 (finding, class %s)' % REFUSED_CLASS,
                       'cached = uncached only along histories in which results are not removed between calls (the hypothesis '
                       'of the property); jugfile unchanged between cached calls',
                       'store and locks are not modified while a command runs']
